@@ -1259,7 +1259,11 @@ void VariableManager::process_variable_declaration(const ASTNode *node) {
             } catch (const ReturnException &ret) {
                 if (ret.is_struct) {
                     // 構造体戻り値を変数に代入
+                    // 値のコピーで宣言側の const 修飾を失わないようにする
+                    // （戻り値側の const も引き継がない）
+                    const bool declared_const = var.is_const;
                     var = ret.struct_value;
+                    var.is_const = declared_const;
                     var.is_assigned = true;
 
                     if (interpreter_->debug_mode && node->name == "student1") {
